@@ -3,6 +3,7 @@ package main
 import (
 	"encoding/hex"
 	"math/rand"
+	"sort"
 	"strconv"
 	"strings"
 )
@@ -1076,3 +1077,183 @@ func finishCopy(xp []string, guard bool, handlerErr string) []string {
 }
 
 func init() { generators["copy"] = genCopy }
+
+const binVariants = 5
+
+// genBinCopy (C14): a table shape and row set over the supported types, encoded in the binary
+// COPY format (optional header incl. extension area, optional trailer) and cut into CopyData
+// messages in five ways (group = base index); sometimes corrupted (field count, lengths,
+// truncation, data after the trailer). xb = the rows the row reader must return.
+func genBinCopy(_ *rand.Rand, id string) *Case {
+	seed, idx := idIndex(id)
+	base := idx / binVariants
+	variant := idx % binVariants
+	r := rand.New(rand.NewSource(seed*15485863 + int64(base)*7 + 3))
+	c := baseCase(id, "bincopy")
+	c.Extra["grp"] = strconv.Itoa(base)
+	letters := []byte("islt" + "ybu")
+	ncols := 1 + r.Intn(4)
+	cols := make([]byte, ncols)
+	colspec := make([]string, ncols)
+	for i := range cols {
+		cols[i] = letters[r.Intn(len(letters))]
+		colspec[i] = string(cols[i])
+	}
+	nrows := r.Intn(5)
+	var stream []byte
+	header := r.Intn(4) != 0
+	if header {
+		stream = append(stream, []byte("PGCOPY\n\377\r\n\000")...)
+		stream = append(stream, be32(uint32(r.Intn(2))<<16)...)
+		ext := 0
+		if r.Intn(5) == 0 {
+			ext = r.Intn(6)
+		}
+		stream = append(stream, be32(uint32(ext))...)
+		stream = append(stream, randBytes(r, ext, false)...)
+	}
+	var xb []string
+	var rowStarts []int
+	for i := 0; i < nrows; i++ {
+		rowStarts = append(rowStarts, len(stream))
+		stream = append(stream, be16(uint16(ncols))...)
+		vals := make([]string, ncols)
+		for j, l := range cols {
+			if r.Intn(5) == 0 {
+				stream = append(stream, 0xff, 0xff, 0xff, 0xff)
+				vals[j] = "n"
+				continue
+			}
+			var raw []byte
+			switch l {
+			case 's':
+				v := int16(r.Intn(65536) - 32768)
+				raw = be16(uint16(v))
+				vals[j] = "i" + strconv.Itoa(int(v))
+			case 'i':
+				v := int32(r.Uint32())
+				raw = be32(uint32(v))
+				vals[j] = "i" + strconv.FormatInt(int64(v), 10)
+			case 'l':
+				v := int64(r.Uint64())
+				raw = append(be32(uint32(uint64(v)>>32)), be32(uint32(uint64(v)))...)
+				vals[j] = "i" + strconv.FormatInt(v, 10)
+			case 't':
+				raw = randBytes(r, r.Intn(7), false)
+				vals[j] = "t" + hex.EncodeToString(raw)
+			case 'y':
+				raw = randBytes(r, r.Intn(7), false)
+				vals[j] = "y" + hex.EncodeToString(raw)
+			case 'b':
+				b := r.Intn(2)
+				raw = []byte{byte(b)}
+				vals[j] = "b" + strconv.Itoa(b)
+			case 'u':
+				raw = randBytes(r, 16, false)
+				vals[j] = "u" + hex.EncodeToString(raw)
+			}
+			stream = append(stream, be32(uint32(len(raw)))...)
+			stream = append(stream, raw...)
+		}
+		xb = append(xb, "b+"+strings.Join(vals, ","))
+	}
+	trailer := r.Intn(2) == 0
+	if trailer {
+		stream = append(stream, 0xff, 0xff)
+	}
+	xb = append(xb, "b.")
+	// corruption
+	valid := true
+	switch r.Intn(9) {
+	case 0:
+		if nrows > 0 { // field count off by one in some row
+			p := rowStarts[r.Intn(nrows)]
+			d := 1
+			if r.Intn(2) == 0 && ncols > 1 {
+				d = -1
+			}
+			copy(stream[p:p+2], be16(uint16(ncols+d)))
+			valid = false
+		}
+	case 1:
+		if len(stream) > 3 { // truncated somewhere
+			stream = stream[:1+r.Intn(len(stream)-1)]
+			valid = false
+		}
+	case 2:
+		if nrows > 0 { // a corrupted field length word
+			p := rowStarts[r.Intn(nrows)] + 2
+			bad := []uint32{0x80000000, 0xfffffffe, 0x7fffffff, 0x00100000, 200}[r.Intn(5)]
+			copy(stream[p:p+4], be32(bad))
+			valid = false
+		}
+	case 3:
+		if trailer { // data after the trailer
+			stream = append(stream, randBytes(r, 1+r.Intn(4), false)...)
+			valid = false
+		}
+	}
+	// chunking
+	var chunks [][]byte
+	n := len(stream)
+	cut := func(points []int) {
+		prev := 0
+		for _, p := range points {
+			if p > prev && p < n {
+				chunks = append(chunks, stream[prev:p])
+				prev = p
+			}
+		}
+		chunks = append(chunks, stream[prev:])
+	}
+	switch variant {
+	case 0:
+		cut(nil)
+	case 1:
+		var pts []int
+		for k := 1; k < n; k++ {
+			pts = append(pts, k)
+		}
+		cut(pts)
+	case 2:
+		r2 := rand.New(rand.NewSource(seed + int64(idx)))
+		var pts []int
+		for k := 1; k < n; k++ {
+			if r2.Intn(4) == 0 {
+				pts = append(pts, k)
+			}
+		}
+		cut(pts)
+	case 3:
+		cut(rowStarts)
+	case 4:
+		pts := []int{5, 11, 15, 19}
+		for _, p := range rowStarts {
+			pts = append(pts, p+1, p+3, p+7)
+		}
+		sort.Ints(pts)
+		cut(pts)
+	}
+	script := strings.Join(colspec, ",") + "//g:1;B;A" + strconv.Itoa(nrows+3) + "?;c:" + hxs("COPY") + "/ok"
+	in := plainStartup("u")
+	in = append(in, msgQuery(script)...)
+	for _, ch := range chunks {
+		if len(ch) == 0 && n > 0 {
+			continue
+		}
+		in = append(in, msgCopyData(ch)...)
+		if r.Intn(6) == 0 {
+			in = append(in, msgFlush()...) // ignored inside COPY
+		}
+	}
+	in = append(in, msgCopyDone()...)
+	in = append(in, msgQuery(probeQuery("END", 0))...)
+	c.In = in
+	if valid {
+		c.Extra["xb"] = "=" + strings.Join(xb, ";")
+		c.Extra["xp"] = "T" + strconv.Itoa(ncols) + ",G," + "C" + hxs("COPY") + ",Z," + xpC("END") + ",Z"
+	}
+	return c
+}
+
+func init() { generators["bincopy"] = genBinCopy }
